@@ -219,7 +219,7 @@ func runC13(args []string) error {
 	co := newCaseOut(cf.out, "Harness.C13", "Z",
 		"per instruction: operands from the boundary lattice (0, +-1, +-2^k, +-2^k+-1 for k in 7,8,15,16,31,32,63,64,127,128,254,255,256, random widths), "+
 			"other item kinds as operands, zero/maximum length byte strings, compound-type and control-flow templates, short random sequences; "+
-			"each script run twice on the real VM; a case is non-trivial when the real VM executed at least 2 instructions; distinct by Coq term")
+			"each script run twice on fresh VMs and once after Reset() on a VM that has just executed other scripts (ending by HALT, THROW, faults in try/catch/finally, ABORT, out of gas, limits); a case is non-trivial when the real VM executed at least 2 instructions; distinct by Coq term")
 	co.shard = 150
 	if cf.replay != "" {
 		cases, err := readReplay(cf.replay)
